@@ -1089,6 +1089,21 @@ pub fn explore_suite(s: &Suite, property: &str) -> SuiteResult {
         let a: Vec<String> = run_history(s, &hist, &[], property).0.iter().map(|o| o.obs.clone()).collect();
         let b: Vec<String> = run_history(s, &hist, &[], property).0.iter().map(|o| o.obs.clone()).collect();
         if a != b {
+            if property == "C14" && s.f.flavour == Flavour::Thread {
+                // every history runs on fresh OS threads: the same history can only behave differently the
+                // second time if thread-scope state outlived (was shared between) its threads
+                res.violations.push(Violation {
+                    property: "C14",
+                    signature: format!("C14/thread/{}/state-outlives-its-thread", s.f.family),
+                    detail: format!("function {}: the same history on fresh OS threads gave {a:?} the first time and {b:?} the second time", s.f.label()),
+                    replay: replay_json(s, &hist, &[]),
+                });
+                res.histories = 1;
+                res.runs = 2;
+                res.steps = (a.len() + b.len()) as u64;
+                res.distinct_obs = 2;
+                return res;
+            }
             vsched::machinery_failure(&format!("suite {} is not deterministic: {a:?} vs {b:?}", s.f.label()));
         }
     }
